@@ -298,6 +298,28 @@ func checkSeekTables(p *Program, r *Report) {
 				} else {
 					r.ok("DT-DESCEND", fk+" / descends only into index blocks", "descend => child.typ = 'i' and positioned")
 				}
+				// termination: index blocks are written after the blocks they index, so a
+				// descent step must lead to a strictly lower offset than the index block it
+				// was read from; otherwise an entry pointing at its own (or a later) index
+				// block makes the descent loop for ever
+				var childOff *Term
+				for _, e := range s.Events {
+					if e.Op == "ev" && e.Aux == "(*Reader).tabIterAt" {
+						childOff = e.Args[1]
+					}
+				}
+				decreases := false
+				for _, k := range sortedFactKeys(s.St) {
+					t := s.St.fterm[k]
+					if t.Op == "lt" && s.St.facts[k] && childOff != nil && t.Args[0] == childOff && strings.Contains(t.Args[1].key, "tableIter.blockOff") {
+						decreases = true
+					}
+				}
+				if !decreases {
+					r.violate("DESCEND-DECREASES", fk+" / every descent step leads to a lower offset", p.pos(f.Pos()), "the index descent continues into a child block without having established that the child lies at a lower offset than the index block it was read from: an index entry that points at its own or a later index block (damaged or hostile table) makes the seek loop for ever", w)
+				} else {
+					r.ok("DESCEND-DECREASES", fk+" / every descent step leads to a lower offset", "descend => child offset < offset of the current index block (ranking function of the loop)")
+				}
 			}
 		}
 		r.floor("DT-DESCEND.return", nRet, 1, "returns of a child block from the index descent")
